@@ -6,7 +6,8 @@
    PIXELS (C11_created_decodes): the file created for a raw image that means `pic` (the given samples under the given
    colour type, palette or key, depth) is decoded by the specification's whole-file decoder to `pic` - to an alpha-equivalent
    picture under alpha optimisation - with the chunks the caller attached passing the policy (zlib oracle; attached chunk
-   names 4 bytes, not IEND/PLTE/tRNS; dimensions below 2^32). *)
+   names 4 bytes, not IEND/PLTE/tRNS; dimensions below 2^32).
+   ALSO: the attached chunks that are written (closed form) and the --scale16 variant of the pixel theorem. *)
 From OxiVerif Require Import Base.Common Model.Types Model.Options Model.Headers Model.PngData Model.Optimize
   Model.Reductions Proofs.RobustProofs Proofs.PipelineProofs Proofs.EffectProofs Proofs.ReductionInv.
 From OxiVerif Require Import Spec.Adam7 Spec.Sem Spec.Decode Spec.DecodeFile Proofs.Bridge Proofs.LiftColor Proofs.LiftAlpha Proofs.ContainerOk.
